@@ -139,6 +139,14 @@ fn decode_change(payload: &[u8]) -> Option<Change> {
     }
 }
 
+/// Node ids a BatchPromote entry turns into voters (None for any other payload).
+pub fn promoted_ids(payload: &[u8]) -> Option<Vec<u32>> {
+    match decode_change(payload)? {
+        Change::BatchPromote(b) => Some(b.node_ids),
+        _ => None,
+    }
+}
+
 /// Applies a membership change to a (id -> is_voter) model the way the protocol defines it.
 fn model_apply(m: &mut BTreeMap<u32, bool>, c: &Change) {
     match c {
@@ -260,6 +268,21 @@ pub fn check_c27(res: &RunResult) -> V {
                         "C27:learner-granted-a-vote".into(),
                         format!("t={t}ms node {voter}, a learner in its own membership view, granted its vote to {candidate} in term {req_term}"),
                     ));
+                }
+            }
+            Ev::PromoteCommitted { leader, index, promoted } => {
+                // "becomes a voter only ... after catching up": when its promotion commits, the node's log must be
+                // close to the promotion entry. The leader checks `commit - match <= learner_catchup_threshold` (1 in
+                // the simulated configuration) before it proposes; entries appended between that check and the commit
+                // of the promotion are allowed for with a generous slack.
+                const SLACK: u64 = 40;
+                for (pid, last) in promoted {
+                    if last + SLACK < *index {
+                        return Some((
+                            "C27:learner-promoted-before-catching-up".into(),
+                            format!("t={t}ms leader {leader} committed the promotion of node {pid} at index {index} while that node's log ends at {last}"),
+                        ));
+                    }
                 }
             }
             Ev::VoteReqSent { from, term, .. } => {
